@@ -21,7 +21,7 @@ SPEC = dict(
                  'strings contain no NUL bytes and no "nan"/"inf" texts'],
     technique='tagged-tree value model in plain C structs, ASan/UBSan/LSan',
     exhaustive={Q: False, T: False},
-    jobs=[job('hist', 'h_variant', 'hist', cases={Q: 20000, T: 400000}, procs=16, probes=PROBES)],
+    jobs=[job('hist', 'h_variant', 'hist', cases={Q: 40000, T: 400000}, procs=16, probes=PROBES)],
     floors={Q: dict(ops=1000000, coercions_compared=80000000, equalities_compared=20000000, copy_equalities_checked=400000, cow_clones_of_shared_payload=40000, nested_cow_clones=6000,
                     op_assign_own_element=8000, **{'set:mutable_access_cells': 120, 'set:op_type_cells': 300}),
             T: dict(ops=20000000, coercions_compared=1600000000, equalities_compared=400000000, copy_equalities_checked=8000000, cow_clones_of_shared_payload=800000, nested_cow_clones=120000,
